@@ -225,7 +225,9 @@ def run_case(case):
         try:
             mpo0 = with_alarm(60.0, lambda: construct(case))
         except AssertionError:
-            return ZERO_TAG + ' constructor raises AssertionError although the documented formula is the zero operator'
+            # the listed class of known finding F14 (replayed by known_findings_present on every run); not returned by the search,
+            # so that it keeps looking for a DIFFERENT violation after a break
+            return None
         except Exception as ex:
             return f'constructor raises {type(ex).__name__}: {ex}'
         M0 = np.asarray(mpo0.as_matrix())
